@@ -506,6 +506,8 @@ pub fn plan(tier: Tier) -> Plan {
     }
     p.must_be_nonzero = vec!["sink_policy_runs".into(), "mutants".into(), "chunkings".into(), "ladder_files".into()];
     p.rule.push_str(super::seqread::RULE);
+    p.rule.push_str(super::seqread::RULE_CONCURRENT);
+    super::seqread::add_concurrent_unit(&mut p, super::seqread::Class::Verify);
     super::seqread::add_units(&mut p, super::seqread::Class::Verify, if tier.thorough() { 5 } else { 4 });
     p
 }
